@@ -297,6 +297,40 @@ static void mix_pair(uint64_t a, uint64_t b, bool is32) {
     V_COUNT("evaluations", 10 * NTABS);
 }
 
+/* in-place accumulation (c16_table.h): fold f[0..n) into an accumulator with the checked add / mul, through a pointer parameter,
+ * a size_t pointer and a struct field; the reference folds in 128-bit arithmetic, a step that does not fit is skipped */
+static void acc_case(uint64_t a, uint64_t b) {
+    const uint64_t f[5] = {a, b, 3, b, a | 1};
+    for (int op = 0; op < 2; ++op) {
+        uint64_t want = op ? 1 : 0;
+        int want_stop = 0; /* 0 = all five steps fit, else 1 + index of the first step that does not */
+        for (int i = 0; i < 5 && !want_stop; ++i) {
+            u128 ex = op ? (u128)want * f[i] : (u128)want + f[i];
+            if (ex > UINT64_MAX) want_stop = i + 1;
+            else want = (uint64_t)ex;
+        }
+        for (int ti = 0; ti < NTABS; ++ti) {
+            uint64_t acc = 0x5a5a;
+            int stop = tabs[ti]->acc64(&acc, f, 5, op);
+            if (stop != want_stop || (!want_stop && acc != want))
+                c16_fail(op ? "mul_u64_checked" : "add_u64_checked", tabs[ti], "wrong_when_accumulating_in_place", "fold of {0x%" PRIx64 ",0x%" PRIx64 ",3,0x%" PRIx64 ",0x%" PRIx64 "} through a pointer: got 0x%" PRIx64
+                         " (stopped at step %d), exact 0x%" PRIx64 " (stops at step %d)", f[0], f[1], f[3], f[4], acc, stop, want, want_stop);
+            size_t accs = 0x5a5a;
+            size_t fs[5] = {(size_t)f[0], (size_t)f[1], 3, (size_t)f[3], (size_t)f[4]};
+            stop = tabs[ti]->accsz(&accs, fs, 5, op);
+            if (stop != want_stop || (!want_stop && (uint64_t)accs != want))
+                c16_fail(op ? "mul_size_checked" : "add_size_checked", tabs[ti], "wrong_when_accumulating_in_place", "fold of {0x%" PRIx64 ",0x%" PRIx64 ",3,...} through a size_t pointer: got 0x%zx (stopped at step %d), exact 0x%" PRIx64
+                         " (stops at step %d)", f[0], f[1], accs, stop, want, want_stop);
+            struct c16_accbox box = {.tag = 7, .value = 0x5a5a, .count = 99};
+            stop = tabs[ti]->accfield(&box, f, 5, op);
+            if (stop != want_stop || (!want_stop && box.value != want) || box.tag != 7)
+                c16_fail(op ? "mul_u64_checked" : "add_u64_checked", tabs[ti], "wrong_when_accumulating_in_place", "fold of {0x%" PRIx64 ",0x%" PRIx64 ",3,...} into a struct field: got 0x%" PRIx64 " (stopped at step %d), exact 0x%" PRIx64
+                         " (stops at step %d)", f[0], f[1], box.value, stop, want, want_stop);
+        }
+    }
+    V_COUNT("evaluations", 6 * NTABS);
+}
+
 static uint64_t total_pairs64(void) { return (uint64_t)B64.n * B64.n; }
 static uint64_t total_pairs32(void) { return (uint64_t)B32.n * B32.n; }
 
@@ -306,6 +340,7 @@ static void eval_u64(uint64_t index, void *ctx) {
     uint64_t a = B64.v[index / B64.n], b = B64.v[index % B64.n];
     pair_u64(a, b);
     mix_pair(a, b, false);
+    acc_case(a, b);
     if (a == 0x100000000ull && b == 0x100000000ull) {
         uint64_t r = 0;
         int rc = tabs[1]->chk64[C16_MUL](a, b, &r);
